@@ -254,75 +254,103 @@ structure FrameRes where
 def kindTag : Kind → Nat
   | .call => 0 | .callcode => 1 | .delegate => 2 | .static => 3
 
+/-- The end of evm.Call & co: on error RevertToSnapshot (here: the saved world) and burn the remaining gas
+    unless the error is a REVERT. -/
+def callExit (saved : World) (r : Res) : FrameRes :=
+  match r.out with
+  | .ok d => ⟨r.w, r.gas, .ok d, r.tr⟩
+  | .revert d => ⟨saved, r.gas, .revert d, r.tr⟩
+  | .err e => ⟨saved, 0, .err e, r.tr⟩
+  | .crash => ⟨r.w, 0, .crash, r.tr⟩
+
+/-- The state the callee starts in: only CALL creates the account (when there is no live object) and transfers. -/
+def callWorld (ctx : Ctx) (kind : Kind) (addr : Addr) (value : Nat) (w : World) : World :=
+  if kind = .call then ((if w.isLive addr then w else w.createAccount addr).transfer ctx.self addr value) else w
+
+def calleeCtx (ctx : Ctx) (kind : Kind) (addr : Addr) : Ctx :=
+  { self := if kind = .call ∨ kind = .static then addr else ctx.self,
+    static := ctx.static || kind == .static, depth := ctx.depth + 1 }
+
 /-- evm.Call / CallCode / DelegateCall / StaticCall with `gas` handed to the callee.
     `run` executes the callee's body (the code found at `addr`); it is not entered when there is no code. -/
 def enterCall (env : Env) (ctx : Ctx) (kind : Kind) (addr : Addr) (value gas : Nat) (w : World) (tr : List Ev)
     (run : Ctx → Nat → World → List Ev → Res) : FrameRes :=
-  let transfers := kind == .call || kind == .callcode
   if ctx.depth > env.maxDepth then ⟨w, gas, .err .depth, tr⟩
-  else if transfers && w.balOf ctx.self < value then ⟨w, gas, .err .balance, tr⟩
+  else if (kind = .call ∨ kind = .callcode) ∧ w.balOf ctx.self < value then ⟨w, gas, .err .balance, tr⟩
   else
     -- snapshot = w
-    let w1 := if kind == .call then
-                ((if w.isLive addr then w else w.createAccount addr).transfer ctx.self addr value)
-              else w
-    let cctx : Ctx := { self := if kind == .call || kind == .static then addr else ctx.self,
-                        static := ctx.static || kind == .static, depth := ctx.depth + 1 }
-    let r : Res := if (w1.codeOf addr).isEmpty then ⟨w1, gas, .ok [], tr⟩ else run cctx gas w1 tr
-    match r.out with
-    | .ok d => ⟨r.w, r.gas, .ok d, r.tr⟩
-    | .revert d => ⟨w, r.gas, .revert d, r.tr⟩        -- RevertToSnapshot, gas kept
-    | .err e => ⟨w, 0, .err e, r.tr⟩                  -- RevertToSnapshot, all gas burnt
-    | .crash => ⟨r.w, 0, .crash, r.tr⟩
+    callExit w (if (callWorld ctx kind addr value w).codeOf addr = [] then ⟨callWorld ctx kind addr value w, gas, .ok [], tr⟩
+                else run (calleeCtx ctx kind addr) gas (callWorld ctx kind addr value w) tr)
+
+/-- The end of evm.create: code-size limit, code deposit, SetCode; on failure back to the snapshot taken after
+    the creator's nonce bump. -/
+def createExit (saved : World) (addr : Addr) (r : Res) : FrameRes :=
+  match r.out with
+  | .ok d =>
+    if d.length > maxCodeSize then ⟨saved, 0, .err .maxCode, r.tr⟩
+    else if r.gas < gCodeDeposit * d.length then ⟨saved, 0, .err .codeStore, r.tr⟩
+    else ⟨r.w.setCode addr d, r.gas - gCodeDeposit * d.length, .ok d, r.tr⟩
+  | .revert d => ⟨saved, r.gas, .revert d, r.tr⟩
+  | .err e => ⟨saved, 0, .err e, r.tr⟩
+  | .crash => ⟨r.w, 0, .crash, r.tr⟩
+
+/-- CreateAccount(address); SetNonce(address, 1); Transfer. -/
+def createWorld (ctx : Ctx) (addr : Addr) (value : Nat) (w0 : World) : World :=
+  ((w0.createAccount addr).setNonce addr 1).transfer ctx.self addr value
+
+/-- the creator's nonce bump: done before the snapshot, it survives a failed create -/
+def bumpNonce (w : World) (a : Addr) : World := w.setNonce a (w.nonceOf a + 1)
 
 /-- evm.create (Create / Create2) with `gas` handed to the init code; `addr` already derived. -/
 def enterCreate (env : Env) (ctx : Ctx) (addr : Addr) (value gas : Nat) (w : World) (tr : List Ev)
     (run : Ctx → Nat → World → List Ev → Res) : FrameRes :=
   if ctx.depth > env.maxDepth then ⟨w, gas, .err .depth, tr⟩
   else if w.balOf ctx.self < value then ⟨w, gas, .err .balance, tr⟩
+  else if (bumpNonce w ctx.self).nonceOf addr ≠ 0 ∨ (bumpNonce w ctx.self).codeOf addr ≠ [] then
+    ⟨bumpNonce w ctx.self, 0, .err .collision, tr⟩
   else
-    let w0 := w.setNonce ctx.self (w.nonceOf ctx.self + 1)      -- survives a failed create
-    if w0.nonceOf addr != 0 || !(w0.codeOf addr).isEmpty then ⟨w0, 0, .err .collision, tr⟩
-    else
-      -- snapshot = w0
-      let w1 := (((w0.createAccount addr).setNonce addr 1).transfer ctx.self addr value)
-      let r := run { self := addr, static := ctx.static, depth := ctx.depth + 1 } gas w1 tr
-      match r.out with
-      | .ok d =>
-        if d.length > maxCodeSize then ⟨w0, 0, .err .maxCode, r.tr⟩
-        else if r.gas < gCodeDeposit * d.length then ⟨w0, 0, .err .codeStore, r.tr⟩
-        else ⟨r.w.setCode addr d, r.gas - gCodeDeposit * d.length, .ok d, r.tr⟩
-      | .revert d => ⟨w0, r.gas, .revert d, r.tr⟩
-      | .err e => ⟨w0, 0, .err e, r.tr⟩
-      | .crash => ⟨r.w, 0, .crash, r.tr⟩
+    -- snapshot = bumpNonce w ctx.self
+    createExit (bumpNonce w ctx.self) addr
+      (run { self := addr, static := ctx.static, depth := ctx.depth + 1 } gas
+        (createWorld ctx addr value (bumpNonce w ctx.self)) tr)
+
+/-- does the operation carry value (CALL and CALLCODE only) -/
+def hasVal (kind : Kind) (value : Nat) : Bool := (kind == .call || kind == .callcode) && value != 0
+
+/-- the part of gasCall / gasCallCode / gasDelegateCall / gasStaticCall that is not the forwarded gas -/
+def callBase (kind : Kind) (mem : Nat) (addr : Addr) (value : Nat) (w : World) : Nat :=
+  (if hasVal kind value then gCallValue else 0)
+  + (if kind == .call && value != 0 && w.isEmpty addr then gNewAccount else 0) + mem
+
+def stipendOf (kind : Kind) (value : Nat) : Nat := if hasVal kind value then gStipend else 0
 
 /-- The interpreter-level part of a CALL-family op up to the evm call: `(kept, given)` or the error. -/
 def callCharge (ctx : Ctx) (kind : Kind) (pre mem : Nat) (addr : Addr) (value gasSpec : Nat) (gas : Nat) (w : World) :
     Except Err (Nat × Nat) :=
-  if gas < pre then .error .oog else
-  if ctx.static && kind == .call && value != 0 then .error .writeProt else
-  let g0 := gas - pre
-  if g0 < gCall then .error .oog else
-  let avail := g0 - gCall
-  let hasVal := (kind == .call || kind == .callcode) && value != 0
-  let base := (if hasVal then gCallValue else 0)
-              + (if kind == .call && value != 0 && w.isEmpty addr then gNewAccount else 0) + mem
-  match callGas avail base gasSpec with
-  | none => .error .oog
-  | some temp =>
-    if avail < base + temp then .error .oog
-    else .ok (avail - (base + temp), temp + (if hasVal then gStipend else 0))
+  if gas < pre then .error .oog
+  else if ctx.static && kind == .call && value != 0 then .error .writeProt
+  else if gas - pre < gCall then .error .oog
+  else
+    match callGas (gas - pre - gCall) (callBase kind mem addr value w) gasSpec with
+    | none => .error .oog
+    | some temp =>
+      if gas - pre - gCall < callBase kind mem addr value w + temp then .error .oog
+      else .ok (gas - pre - gCall - (callBase kind mem addr value w + temp), temp + stipendOf kind value)
 
-/-- opCreate / opCreate2 up to the evm call: `(kept, given)`.  CREATE hands over all remaining gas (no 63/64
-    rule in this repository's opCreate); CREATE2 keeps 1/64. -/
+/-- CREATE hands over all remaining gas (no 63/64 rule in this repository's opCreate); CREATE2 keeps 1/64. -/
+def createGiven (is2 : Bool) (g : Nat) : Nat := if is2 then g - g / 64 else g
+
+/-- opCreate / opCreate2 up to the evm call: `(kept, given)`. -/
 def createCharge (ctx : Ctx) (is2 : Bool) (pre hashCost : Nat) (gas : Nat) : Except Err (Nat × Nat) :=
-  if gas < pre then .error .oog else
-  if ctx.static then .error .writeProt else
-  let g0 := gas - pre
-  if g0 < gCreate + hashCost then .error .oog else
-  let g := g0 - (gCreate + hashCost)
-  let given := if is2 then g - g / 64 else g
-  .ok (g - given, given)
+  if gas < pre then .error .oog
+  else if ctx.static then .error .writeProt
+  else if gas - pre < gCreate + hashCost then .error .oog
+  else .ok (gas - pre - (gCreate + hashCost) - createGiven is2 (gas - pre - (gCreate + hashCost)),
+            createGiven is2 (gas - pre - (gCreate + hashCost)))
+
+/-- gasSuicide -/
+def selfdestructCost (w : World) (self ben : Addr) : Nat :=
+  gSelfdestruct + (if w.isEmpty ben && w.balOf self != 0 then gSelfdestructNew else 0)
 
 def exec (env : Env) : Prog → Ctx → Nat → World → List Ev → Res
   | .stop pre, _, gas, w, tr =>
@@ -337,7 +365,7 @@ def exec (env : Env) : Prog → Ctx → Nat → World → List Ev → Res
     if gas < pre then ⟨w, gas, .err .oog, tr⟩ else
     if ctx.static then ⟨w, gas - pre, .err .writeProt, tr⟩ else
     let g := gas - pre
-    let cost := gSelfdestruct + (if w.isEmpty ben && w.balOf ctx.self != 0 then gSelfdestructNew else 0)
+    let cost := selfdestructCost w ctx.self ben
     let w1 := if w.hasSuicided ctx.self then w else w.addRefund rSelfdestruct
     if g < cost then ⟨w1, g, .err .oog, tr⟩ else
     let b := w1.balOf ctx.self
